@@ -24,7 +24,7 @@ def main (args : List String) : IO UInt32 := do
       | "C03" => some (DriverDemux.runC03 t)
       | "C07" => some (DriverDemux.runC07 t)
       | "C08" => some (DriverDemux.runC08 t)
-      | "C16" => some (DriverDemux.runC16 t)
+      | "C16" => some (do DriverDemux.runC16 t; DriverMux.runC16mux t)
       | "C18" => some (do DriverDemux.runC18r t; DriverMux.runC18w t)
       | "C19" => some (DriverDemux.runC19 t)
       | "C20" => some (do DriverDemux.runC20 t; DriverDemux.runC20long t)
